@@ -232,7 +232,10 @@ def _refit(r, case):
             if kind == 'uni' and cfg[0] == 'kde' and cfg[2] is None and isinstance(got.get('to_dict'), dict):
                 # cause: a KDE built WITHOUT sample_size stores a resample instead of the training data
                 stored = np.sort(np.ravel(np.asarray(got['to_dict'].get('dataset'), float)))
-                if not np.array_equal(stored, np.sort(data_for(kind, n))):
+                # (known finding: the size is remembered by the first fit on NON-constant data; a resample after constant
+                # fits only keeps its own signature and is reported)
+                earlier_nonconst = any(h not in ('C1', 'C2', 'C0') and fresh[h][0] is None for h in hist[:-1])
+                if earlier_nonconst and not np.array_equal(stored, np.sort(data_for(kind, n))):
                     prev = 'kde-resampled-without-sample_size'
             r.violation(f'C19:{kind}:{label}:refit-differs-from-fresh:{prev}', f'{tag}: differs from a fresh object fitted on '
                         f'{n}: {_diff(got, exp_obs)}', case=case)
